@@ -8,8 +8,10 @@ import "sync/atomic"
 
 // VerifIsClosed reports whether the client currently considers its connection closed.
 func (tc *TarsClient) VerifIsClosed() bool {
-	tc.conn.connLock.Lock()
-	defer tc.conn.connLock.Unlock()
+	// never block the monitor on the lock it is observing
+	if tc.conn.connLock.TryLock() {
+		defer tc.conn.connLock.Unlock()
+	}
 	return tc.conn.isClosed
 }
 
